@@ -248,10 +248,15 @@ func (p *lexer) parse(minPrec int) Expr {
 				panic(parseErr("binder name expected"))
 			}
 			ty := p.next()
+			ptr := ""
+			if ty.kind == "op" && ty.text == "*" {
+				ptr = "*"
+				ty = p.next()
+			}
 			if ty.kind != "id" {
 				panic(parseErr("binder type expected"))
 			}
-			q.Vars = append(q.Vars, Binder{n.text, ty.text})
+			q.Vars = append(q.Vars, Binder{n.text, ptr + ty.text})
 			if p.isOp(",") {
 				p.next()
 				continue
